@@ -5,6 +5,7 @@ CONSTANTS
   ObeySet = {"all"}
   EASet = {"none", "secs", "ms", "at"}
   WithInterrupt = FALSE
+  EarlyExit = TRUE
   Emit = FALSE
 INIT Init
 NEXT Next
